@@ -26,11 +26,12 @@ pub static PROP: Prop = Prop {
     fixed,
     replay: Some(replay),
     breadcrumb: false,
+    fuzz: &[],
 };
 
 fn budget(t: Tier) -> Budget {
     Budget {
-        cases: t.pick(3_000, 100_000),
+        cases: t.pick(25_000, 300_000),
         max_len: 260,
         shards: 16,
         dual_profile: false,
